@@ -510,14 +510,8 @@ func (m *Machine) rangeNext(it *RangeIter, in *ssa.Next) Value {
 		return TupleV{tt.Bool(true), tt.BV(64, uint64(at)), r}
 	}
 	tup := in.Type().(*types.Tuple)
-	if it.m != nil {
-		for it.pos < len(it.m.entries) {
-			e := it.m.entries[it.pos]
-			it.pos++
-			if !e.deleted {
-				return TupleV{tt.Bool(true), e.k, e.v}
-			}
-		}
+	if e := it.mc.next(it.m); e != nil {
+		return TupleV{tt.Bool(true), e.k, e.v}
 	}
 	// exhausted: key/value components are zero values of their (possibly invalid) types
 	zk, zv := Value(nil), Value(nil)
